@@ -464,12 +464,21 @@ def _clean_up_state(state: State) -> None:
 
     # Remove all old flow states based on last status update to limit their number
     # TODO: Refactor, we need to have reference based clean up approach
+    # Flow states that are still the parent of a running or activated flow are kept,
+    # since the activation mechanism needs them (reference instances)
+    referenced_parent_uids = {
+        flow_state.parent_uid
+        for flow_state in state.flow_states.values()
+        if flow_state.parent_uid
+        and (not _is_done_flow(flow_state) or flow_state.activated > 0)
+    }
     states_to_be_removed = []
     for flow_state in state.flow_states.values():
         if (
             _is_done_flow(flow_state)
             and (datetime.now() - flow_state.status_updated) > timedelta(seconds=5)
             and flow_state.activated == 0
+            and flow_state.uid not in referenced_parent_uids
         ):
             states_to_be_removed.append(flow_state.uid)
     for flow_state_uid in states_to_be_removed:
